@@ -2,6 +2,7 @@
 import io
 import os
 import tempfile
+import time
 
 import z3
 
@@ -247,6 +248,92 @@ class _Interp(object):
     return _Interp(self.x, self.y, self.order + 1, self.idx, **self.kw)
 
 
+def plot_fp_case(steps, timeout_s=60):
+  """Row count of plotToFile under floating point: the real function runs on Float64 terms (low and high ends symbolic);
+  a path that writes a number of rows other than `steps` is handed to z3 (QF_FP) for a witness, which is replayed."""
+  import atsim.potentials as ap
+  from symx import fpalg
+  res = new_result("plot row count under floating point, steps=%d" % steps)
+  shims.install(extra_globals={m.__name__: dict(float=fpalg.sfloat, int=fpalg.sint) for m in shims.repo_modules()})
+  wrong = []
+  try:
+    def fn():
+      lo, hi = z3.FP("lowx", fpalg.F64), z3.FP("highx", fpalg.F64)
+      core.cur().assume(z3.And(z3.fpGEQ(lo, fpalg.fpv(0.0)), z3.fpLEQ(lo, fpalg.fpv(8.0)), z3.fpGEQ(hi, fpalg.fpv(0.0625)), z3.fpLEQ(hi, fpalg.fpv(16.0)),
+                               z3.fpGEQ(z3.fpSub(fpalg.RNE, hi, lo), fpalg.fpv(0.0625))))
+      xs = []
+
+      def f(x):
+        xs.append(x)
+        if len(xs) > steps + 2:
+          raise core.PathAbort("more than steps + 2 rows", "too-many-rows")
+        return 1.0
+
+      class Out(object):
+        n = 0
+
+        def write(self, t):
+          Out.n += t.count("\n")
+      Out.n = 0
+      ap.plotToFile(Out(), fpalg.SFP(lo), fpalg.SFP(hi), f, steps)
+      return Out.n, len(xs)
+    ex = core.Explorer(max_paths=8 * steps + 16, max_seconds=timeout_s + 120, blind=True)
+    for p in ex.iter_paths(fn, catch=(Exception,)):
+      if p.aborted and "more than steps" in str(p.aborted):
+        res["vcs"] += 1
+        wrong.append((steps + 3, steps + 3, list(p.pc)))
+        continue
+      if p.exc is not None or p.aborted:
+        res["inconclusive"].append("Float64 run of plotToFile ended: %r %r" % (p.exc, p.aborted))
+        continue
+      rows, evals = p.value
+      res["vcs"] += 1
+      if rows == steps and evals == steps:
+        res["unsat"] += 1
+        continue
+      wrong.append((rows, evals, list(p.pc)))
+    res["paths"] += ex.stats["paths"]
+    res["queries"] += ex.stats["feasibility_queries"]
+    res["solver_s"] += ex.stats["solver_s"]
+  finally:
+    shims.uninstall()
+  res["negatives"] += 1
+  res["negatives_ok"] += 1 if res["paths"] >= 1 else 0
+  undecided = 0
+  wrong.sort(key=lambda w_: abs(w_[0] - steps))
+  for rows, evals, pc in wrong[:4]:
+    s = z3.SolverFor("QF_FP")
+    s.set("timeout", int(timeout_s * 1000))
+    for c in pc:
+      s.add(c)
+    t0 = time.time()
+    r = s.check()
+    res["queries"] += 1
+    res["solver_s"] += time.time() - t0
+    if r == z3.unsat:
+      res["unsat"] += 1
+      continue
+    if r != z3.sat:
+      undecided += 1
+      continue
+    res["sat"] += 1
+    m = s.model()
+    lo = float(z3.simplify(z3.fpToReal(m.eval(z3.FP("lowx", fpalg.F64), model_completion=True))).as_fraction())
+    hi = float(z3.simplify(z3.fpToReal(m.eval(z3.FP("highx", fpalg.F64), model_completion=True))).as_fraction())
+    out = io.StringIO()
+    ap.plotToFile(out, lo, hi, lambda x: 1.0, steps)
+    n = out.getvalue().count("\n")
+    res["replays"] += 1
+    if n != steps:
+      res["violations"].append(dict(key="plot-row-count-floating-point", desc="plotToFile(low=%r, high=%r, steps=%d) writes %d rows" % (lo, hi, steps, n),
+                                    record=dict(kind="plot_rows", low=lo, high=hi, steps=steps, rows=n)))
+      return res
+    res["inconclusive"].append("Float64 witness low=%r high=%r for %d rows did not reproduce (%d rows written)" % (lo, hi, rows, n))
+  if undecided:
+    res["inconclusive"].append("%d paths of plotToFile write a number of rows other than steps=%d; z3 did not decide whether any Float64 input takes them" % (undecided, steps))
+  return res
+
+
 def _tags(n, base):
   return [float(base + i) for i in range(n)]
 
@@ -417,6 +504,8 @@ def cases(tier, seed=0):
   for route in ("plotToFile", "plot", "plotPotentialObjectToFile", "plotPotentialObject"):
     for steps in ((1, 3, 5) if q else range(1, 9)):
       cs.append(Case("plot %s %d" % (route, steps), plot_case, steps=steps, route=route))
+  for steps in ((10,) if q else (3, 7, 10, 12)):
+    cs.append(Case("plot rows under floating point steps=%d" % steps, plot_fp_case, steps=steps, timeout_s=60 if q else 300))
   for n in ((3, 4, 5) if q else range(3, 9)):
     for layout in ("x_y", "xy", "both"):
       cs.append(Case("tableform %d %s" % (n, layout), tableform_case, n=n, layout=layout))
